@@ -65,6 +65,14 @@ def gen_probe_sem(rng, **o):
     sem = G.gen(rng, nc=nc, **{k: v for k, v in o.items() if k in (
         'nt', 'nsw', 'nspk', 'curated', 'empty', 'wmi', 'div', 'features', 'vanish', 'rate', 'tamp', 'ties',
         'zero_template', 'neg_amp')}, probes=False, shanks=o.get('shanks', False))
+    if o.get('st') is not None:
+        # explicit assignment vectors (nan_idx pass): nspk = len(st) was passed to the semantic generator, so amplitudes,
+        # sample times and feature rows already have the right length
+        assert len(o['st']) == sem['n_spikes'] and max(o['st']) < sem['n_templates']
+        sem['spike_templates'] = list(o['st'])
+        sem['spike_clusters'] = list(o['sc']) if o.get('sc') is not None else None
+        sem['opts']['curated'] = o.get('sc') is not None and list(o['sc']) != list(o['st'])
+        sem['opts']['empty'] = 'given'
     sem['positions'] = positions(rng, nc, o.get('geometry', rng.choice(['grid', 'grid', 'column', 'square', 'stagger', 'long'])))
     extra = o.get('extra', rng.choice([0, 0, 1, 3]))
     cm = rng.sample(range(nc + extra), nc)
@@ -123,9 +131,9 @@ def gen_merged(rng, k=None, ncs=None, **o):
         if cms is not None:
             po['cm'] = cms[j]
         w = wmi if wmi != 'mixed' else rng.choice(['file', 'inv', 'none'])
-        # the highest template of every probe has a spike: the Merger numbers merged templates by max(id) + 1 per
-        # probe but stacks templates.npy by template count (C11/C12's business), and the two must agree here
-        po.setdefault('empty', rng.choice(['none', 'none', 'start', 'middle']))
+        # templates without spikes at the start / in the middle / at the END of a probe's id range (the Merger's template
+        # offsets are the row counts of templates.npy since fix ed7cbd4, so a trailing unused template is fine)
+        po.setdefault('empty', rng.choice(['none', 'none', 'start', 'middle', 'end']))
         nt_k = po.pop('nt', rng.randint(2, 3))          # at least as many spikes as templates, so that the highest is used
         sem = gen_probe_sem(rng, nc=nc, nsw=nsw, rate=rate, wmi=w, features='none',
                             curated=(rng.random() < 0.3) if curated is None else curated,
